@@ -385,6 +385,15 @@ def _eval(t, env, depth):
             return AV(x.lo, x.hi)
         if n in ('i2i', 'ref'):
             return eval_av(a[0], env)
+        if n == 'wrap_int':
+            # narrowing / sign-changing integer cast: the operand's own range if it fits, else the target's range
+            x = eval_av(a[0], env)
+            kind = a[1][1] if len(a) > 1 and a[1][0] == 'str' else 'usize'
+            bits = {'u8': 8, 'u16': 16, 'u32': 32, 'u64': 64, 'usize': 64, 'u128': 128, 'i8': 8, 'i16': 16, 'i32': 32, 'i64': 64, 'isize': 64, 'i128': 128}.get(kind, 64)
+            lo, hi = (-(1 << (bits - 1)), (1 << (bits - 1)) - 1) if kind.startswith('i') else (0, (1 << bits) - 1)
+            if x.lo is not None and x.hi is not None and x.lo >= lo and x.hi <= hi and not x.nan:
+                return AV(x.lo, x.hi)
+            return AV(Fraction(lo), Fraction(hi))
         if n in ('f2f', 'numcast'):
             x = eval_av(a[0], env).copy()
             # narrowing to f32 may overflow to +-inf, never creates NaN
